@@ -3,6 +3,7 @@ package checks
 import (
 	"fmt"
 	corev1 "k8s.io/api/core/v1"
+	"strings"
 	"testing"
 
 	"sigs.k8s.io/controller-runtime/pkg/client"
@@ -102,7 +103,7 @@ func TestC02(t *testing.T) {
 	k := 0
 	seenSc := map[string]int{}
 	// closures run in batches while the search proceeds, so that the start states need not all be kept in memory
-	runWorld(t, run, c02Scenarios(), nil, 0, func(sc *w.Scenario, s *w.State, d int) {
+	runWorld(t, run, c02Scenarios(), []func(*w.MonCtx){monC02Mem}, 0, func(sc *w.Scenario, s *w.State, d int) {
 		k++
 		seenSc[sc.Name]++
 		// the first 2000 states of a scenario (breadth first: the shallow ones) all start a closure, then every 4th
@@ -117,9 +118,38 @@ func TestC02(t *testing.T) {
 	if run.Counter("closures_skipped_deadline") > 0 {
 		run.NotExhaustive(fmt.Sprintf("%d closures skipped at the deadline", run.Counter("closures_skipped_deadline")))
 	}
-	requireAntecedents(run, "C02/fixpoint")
+	requireAntecedents(run, "C02/fixpoint", "C02/user-failed-closure")
 	run.Cov["evaluations"] = run.Counter("closures")
 	exit(run.Finish(fmt.Sprintf("BFS of scenarios S1-S7 (first deployment, rolling updates with several configurations, auto and manual canaries incl. failure and edits of the canary block, DaemonSet migration, setting + node override) with template/annotation/node/pod deviations; from the first 2000 states of each scenario and every %d-th after (every state in thorough) the deterministic fair closure is run (both replica-set orders when a failed-pod back-off is pending) and must reach a lasting fixpoint with one Ready live-template pod per eligible node; non-trivial = distinct (scenario, rounds-to-fixpoint)", every)))
+}
+
+// monC02Mem remembers a canary the user marked failed ("the previously active template after a canary failure"): the mark
+// stands until the user changes the template again or validates the canary.
+func monC02Mem(c *w.MonCtx) {
+	set := func(v string) {
+		if c.Out.Next.Mem == nil {
+			c.Out.Next.Mem = map[string]string{}
+		}
+		if v == "" {
+			delete(c.Out.Next.Mem, "c02:user-failed")
+		} else {
+			c.Out.Next.Mem["c02:user-failed"] = v
+		}
+	}
+	switch {
+	case c.Out.Ev.K == "kubectl" && c.Out.Ev.B == "canary-fail" && c.Out.CmdErr == nil:
+		if e := c.Pre.EDS("ns", "foo"); e != nil && e.Status.Canary != nil {
+			if rs := c.Pre.ERS("ns", e.Status.Canary.ReplicaSet); rs != nil {
+				if _, valid := w.Annot(e, "canary-valid"); !valid {
+					set(rs.Name + "|" + rs.Spec.TemplateGeneration)
+				}
+			}
+		}
+	case c.Out.Ev.K == "kubectl" && c.Out.Ev.B == "canary-validate" && c.Out.CmdErr == nil, c.Out.Ev.K == "setTemplate", c.Out.Ev.K == "editSpec":
+		if _, ok := c.Pre.Mem["c02:user-failed"]; ok {
+			set("")
+		}
+	}
 }
 
 func hasFailedPod(s *w.State) bool {
@@ -152,6 +182,16 @@ func c02Closure(t *testing.T, run *h.Run, sc *w.Scenario, s *w.State, o w.Closur
 			}
 			run.Count("antecedent:C02/fixpoint", 1)
 			run.Nontrivial(fmt.Sprintf("rounds:%s:%d", st.sc.Name, r.Rounds))
+			if uf := st.s.Mem["c02:user-failed"]; uf != "" {
+				// a canary the user marked failed: the live template is the previously active one, so the object must not
+				// have settled on the failed template (by promotion or by keeping it as spec.template)
+				run.Count("antecedent:C02/user-failed-closure", 1)
+				parts := strings.SplitN(uf, "|", 2)
+				if e := r.Final.EDS("ns", "foo"); e != nil && (w.TemplateHash(&e.Spec.Template) == parts[1] || e.Status.ActiveReplicaSet == parts[0]) {
+					run.Violate(h.Violation{Signature: "C02/live-template: after the user failed the canary the cluster settled on the failed template instead of the previously active one", Monitor: "C02/fixpoint",
+						Message: fmt.Sprintf("failed replica set %s; active=%s spec.template=%s", parts[0], e.Status.ActiveReplicaSet, w.TemplateTag(&e.Spec.Template)), Replay: replay()})
+				}
+			}
 			for _, e := range r.Final.EDSs() {
 				if sig, msg := w.CheckConverged(r.Final, e.Namespace, e.Name); sig != "" {
 					run.Violate(h.Violation{Signature: sig, Monitor: "C02/fixpoint", Message: msg, Replay: replay()})
